@@ -3,7 +3,7 @@
    This is what lr_orthogonal establishes core by core (QR) and what the rounding sweep (C02: the spectrum of the last core is the
    spectrum of the tensor), the QR norm (C07), the local problems (C11-C13) and the tangent projector (C16) rely on. *)
 From Coq Require Import List Arith Lia Ring Bool.
-From TT Require Import RingSig SumN Mat Dense Core CoreP FrobP Arith ArithP Reduce ReduceP ReduceDimsP.
+From TT Require Import RingSig SumN Mat Dense Core CoreP FrobP Arith ArithP Reduce ReduceP ReduceDimsP BilinearP.
 Import ListNotations.
 
 Section OrthP.
@@ -201,6 +201,18 @@ Proof.
   rewrite (Hsplit i Hi).
   rewrite <- (kernelL_fixes pre (fun p => chainM (slices mid m) p q) i Hl Hall).
   apply sum_idx_ext. intros j Hj _. unfold shape in Hj. rewrite map_length in Hj. rewrite (Hsplit j Hj). reflexivity.
+Qed.
+
+(* operators given by kernels on DISJOINT groups of modes commute (the left projector of bond j acts on the modes <= j, the right
+   projector of bond k >= j on the modes > k): A (B f) = B (A f), for any kernels and any tensor f *)
+Theorem kernels_commute (na nc : list nat) (KA KB : list nat -> list nat -> R) (f : list nat -> list nat -> R) a c :
+  sum_idx na (fun a' => KA a a' * sum_idx nc (fun c' => KB c c' * f a' c'))
+  = sum_idx nc (fun c' => KB c c' * sum_idx na (fun a' => KA a a' * f a' c')).
+Proof.
+  rewrite (sum_idx_ext na _ (fun a' => sum_idx nc (fun c' => KA a a' * (KB c c' * f a' c')))).
+  2:{ intros a' _ _. rewrite sum_idx_scal_l. reflexivity. }
+  rewrite sum_idx_swap. apply sum_idx_ext. intros c' _ _.
+  rewrite <- sum_idx_scal_l. apply sum_idx_ext. intros a' _ _. ring.
 Qed.
 
 End OrthP.
